@@ -27,7 +27,7 @@ PROP = {'engine': 'c19',
          'consistent with real-time precedence and program order, executed request by request on a fresh node by the real implementation; first '
          'candidate = return-stamp order, then DFS over all consistent orders with pruning at the first request whose result differs, capped at '
          '40/150 replays. distinct = distinct (shape, deputies, identity, slot, tree shape, per-client request kinds, yield modes); non-trivial = '
-         'at least one pair of overlapping requests of different clients and (stable block advanced or a block was mined) Shape minerace: one client inserts a chain block by block while each insertion holds the chain lock for 2..5 ms (yield sites inside InsertBlock / InsertConfirms), the others ask the node to mine in between (every block leaves the node in turn).',
+         'at least one pair of overlapping requests of different clients and (stable block advanced or a block was mined) Shape minerace: one client inserts a chain block by block while each insertion holds the chain lock for 2..5 ms (yield sites inside InsertBlock / InsertConfirms), the others ask the node to mine in between (every block leaves the node in turn). lateconfirms starts with a decoy sibling the node signs, so that the chain next to it stays unsigned by the node and the background signer writes the ancestors\' records while the late packets arrive.',
  'assumptions': ['MASKING RISK: race reports are classified by the unordered pair of innermost repository function names. A new defect that races on a pair of '
                  'functions already listed as a known finding is not distinguished from the known one; and one root cause (a reader that walks the '
                  'unconfirmed tree without the lock) shows up under several pairs, depending on which field of a freshly published block is touched first',
